@@ -24,7 +24,7 @@ def run():
                    [dict(maxw=2, faults=2, conflicts=1, grants=True), dict(maxw=3, faults=1, conflicts=0, grants=False)]
         for vi, v in enumerate(variants):
             cfg = U.write_cfg("Upstream_c02_%s_%d.cfg" % (pol, vi), policy=pol, sizes=(1,), zero=False, reliable=True, dups=0, acks=2,
-                              writers=("W1",), flushers=("F1",) if (pol == "none" and v["maxw"] == 2) else (), invs=U.INV_C02, **v)
+                              writers=("W1",), flushers=("F1",) if (pol == "none" and v["maxw"] == 2) else (), invs=U.INV_C02, netloss=True, **v)
             ctx.l1("Upstream", cfg, timeout=2400)
             os.remove(os.path.join(SPEC, cfg))
         gcfg = U.write_cfg("Upstream_c02_gen_%s.cfg" % pol, policy=pol, maxw=4, sizes=(1, 2), zero=False, reliable=True, faults=2,
@@ -41,6 +41,23 @@ def run():
             if nconf:
                 s["steps"].insert(2, {"a": "rule", "rule": {"on": "UpstreamResumeRequest", "do": "codes", "codes": [CONFLICT] * nconf + [1]}})
             scs.append(s)
+    # liveness (TLC, fairness of every library step, of the redial and of a broker that answers the resume and acknowledges what the
+    # client waits for): once failures have stopped, every cut chunk reaches the broker - unless the stream was reported closed
+    live = [("immediate", 2, 1, 0, ())] if quick else [("immediate", 2, 1, 0, ()), ("none", 2, 1, 0, ("F1",)), ("immediate", 2, 2, 1, ())]
+    for pol, mw, nf, conf, fl in live:
+        cfg = U.write_cfg("Upstream_c02_live_%s_%d_%d.cfg" % (pol, mw, nf), policy=pol, maxw=mw, sizes=(1,), zero=False, reliable=True, faults=nf,
+                          dups=0, acks=2, grants=False, conflicts=conf, writers=("W1",), flushers=fl, invs=U.INV_C02, live=True, netloss=True)
+        ctx.l1("Upstream", cfg, timeout=3000)
+        os.remove(os.path.join(SPEC, cfg))
+    # sensitivity of the liveness check: the as-coded variant (a cancelled run taken for an ack timeout drops the chunk from the store)
+    # loses a chunk that was written into a dying link
+    cfg = U.write_cfg("Upstream_c02_live_coded.cfg", policy="immediate", maxw=2, sizes=(1,), zero=False, reliable=True, faults=1, dups=0, acks=2,
+                      grants=False, conflicts=0, writers=("W1",), flushers=(), invs="Numbering", live=True, netloss=True, cancel_is_timeout=True)
+    r = ctx.l1("Upstream", cfg, timeout=900, must_hold=False)
+    os.remove(os.path.join(SPEC, cfg))
+    if r.ok or "EventuallyDelivered" not in (r.error or ""):
+        raise Inconclusive("liveness sensitivity: CancelIsTimeout = TRUE should violate EventuallyDelivered, TLC says %s" % ((r.error or "no error")[:120]))
+    ctx.notes.append("liveness EventuallyDelivered checked under FairSpec for %s (policy, writes, failures, conflicts, flushers)" % (live,))
     # partition family: the outage is noticed by keep-alive only (the broker falls completely silent, no EOF) with k chunks in flight;
     # the sent storage is wrapped by a logging storage so that every removal is attributed (code-level StoredUntilAcked)
     # (as coded at the pinned commit each in-flight chunk was dropped from the store with probability of about 7 %: 94 chunks in flight in the quick tier)
